@@ -47,6 +47,8 @@ func protocolIDValidateGate(c *an.Check) *ssa.Function {
 
 func c38(c *an.Check) {
 	p := c.P
+	// ParsePrivateKey / ParsePeer bottom out in the ed25519 private-key decoder (both accepted layouts)
+	ed25519PrivateKeyDecodeGates(c)
 	pv := protocolIDValidateGate(c)
 	// ParseTptAddr
 	pt := p.Func("tptaddr", "", "ParseTptAddr")
